@@ -3,7 +3,7 @@ import re
 
 from facts import AnchorMissing, callee, nodes, pat_alternatives, pat_head, term_callee, unblock, walk
 from shared import Spec, the_match
-from c17_util import (BIND, LABEL, TI, Ctx, Flat, NameFlow, Scope, arm_binders, doc_roots, enum_arm_cover, fshort, is_panic,
+from c17_util import (BIND, LABEL, TI, Ctx, Flat, NameFlow, Scope, doc_roots, enum_arm_cover, fshort, is_panic,
                       iteration_binders, keyword_table, oracle, reachable_bodies, render, root_local, scan_template,
                       var_binders)
 
@@ -99,6 +99,11 @@ def recv_desc(e):
         ty = re.sub(r"<.*$", "", (e.get("ty") or "?").lstrip("&").replace("mut ", ""))
         return ty.rsplit("::", 1)[-1]
     return "?"
+
+
+def lit_of(e):
+    from facts import lit_value, unblock as _ub
+    return lit_value(_ub(e)) if isinstance(e, dict) else None
 
 
 def run(chk, facts, tier, only=None):
@@ -477,12 +482,38 @@ def run(chk, facts, tier, only=None):
             and len([y for y in walk(esc) if y.get("k") == "mcall" and y["m"] == "write"]) == 1
         chk.expect(okh, "template-helper:escape_debug", "rust::get_hbs: the `escape_debug` helper must write `s.escape_debug()` and nothing else",
                    ok_detail="writes s.escape_debug()")
+        # a raw string whose delimiter is computed from its own content: r{{raw_hashes x}}"{{x}}"{{raw_hashes x}}
+        rh = helpers.get("raw_hashes")
+        ok_rh = False
+        if rh is not None:
+            loops = [y for y in walk(rh) if y.get("k") == "loop"]
+            conts = [y for y in walk(rh) if y.get("k") == "mcall" and y["m"] == "contains"]
+            pushes = [y for y in walk(rh) if y.get("k") == "mcall" and y["m"] == "push" and lit_of(y["args"][0]) == "#"]
+            seeds = sorted(str(lit_of(y)) for y in walk(rh) if y.get("k") == "lit" and lit_of(y) in ("#", '"#'))
+            writes = [y for y in walk(rh) if y.get("k") == "mcall" and y["m"] == "write"]
+            # terminator starts as `"#`, the delimiter as `#`; both grow by one `#` while the content contains the terminator
+            ok_rh = len(loops) == 1 and len(conts) == 1 and len(pushes) == 2 and '"#' in seeds and "#" in seeds and len(writes) == 1
+        dyn_ok = set()
+        for tname, text in found.items():
+            for mm in re.finditer(r'r\{\{\s*raw_hashes (\w+)\s*\}\}"(\{\{\s*(\w+)\s*\}\})"\{\{\s*raw_hashes (\w+)\s*\}\}', text):
+                if mm.group(1) == mm.group(3) == mm.group(4):
+                    dyn_ok.add((tname, mm.start(2)))
+        if dyn_ok:
+            chk.expect(ok_rh, "template-helper:raw_hashes",
+                       "rust::get_hbs: the `raw_hashes` helper must emit one more `#` than the longest `\"#…` run in its argument "
+                       "(grow delimiter and terminator together while the content contains the terminator)",
+                       ok_detail="delimiter grows until the content cannot close the raw string")
         n = 0
         for tname, text in sorted(found.items()):
             for mu in scan_template(text):
                 expr = mu["expr"]
                 head = expr.split()[0]
-                if mu["ctx"] == "quote":
+                if mu["ctx"] == "quote" and (tname, mu.get("pos")) in dyn_ok:
+                    n += 1
+                    chk.expect(ok_rh, f"template:{tname}:{expr}",
+                               f"template {tname}: `{{{{{expr}}}}}` sits in a raw string whose delimiter comes from raw_hashes, but that helper "
+                               f"could not be certified", ok_detail="raw string with a delimiter the content cannot close")
+                elif mu["ctx"] == "quote":
                     n += 1
                     chk.expect(head == "escape_debug" and okh, f"template:{tname}:{expr}",
                                f"rust_{'call' if tname == 'canister_call' else tname}.hbs: `{{{{{expr}}}}}` stands between double quotes (or inside a raw "
